@@ -4,6 +4,7 @@ from __future__ import annotations
 
 import ast
 
+from ..alpha import Loc, amatch
 from ..cfg import handler_names
 from ..const import UNKNOWN, Folder
 from ..flow import Slicer, always_exits, flat_guards, parent_map
@@ -450,7 +451,18 @@ def check(model: Model, run: Run) -> None:
     # ------------------------------------------------------------------ R10 / R11 outside the decoding barrier
     _r10_r11_readers(model, run, cg, dec)
 
-    # ------------------------------------------------------------------ R4 barriers
+    # ------------------------------------------------------------------ R12 a valid extended OPEN is not refused
+    run.rule(
+        'C03.R12',
+        'a valid OPEN is not refused: Capabilities.unpack reads the optional parameters with the decoder of the layout the '
+        'OPEN uses (RFC 4271 one-octet lengths, RFC 9072 two-octet lengths) and the capability TLVs inside a parameter with '
+        'one-octet lengths in both, exactly as pack_capabilities writes them (shared with C07.R5)',
+        floor=6,
+    )
+    from . import C07 as _c07
+
+    _c07._r5_codec(model, run, Folder(model))
+
     run.rule(
         'C03.R4',
         'last-resort barriers: Message.unpack in read_message sits in a try whose handler covers Exception and '
@@ -882,6 +894,82 @@ R7_LITERAL_PARAMS = {
 }
 
 
+R7_BYTES_TRIAGED = {
+    'exabgp.bgp.message.keepalive.KeepAlive.unpack_message': 'Connection.reader refuses a KEEPALIVE whose Length is not 19 before the body reaches the decoder; the branch is reached only by programmatic callers',
+}
+
+
+def _strict_data_decoders(model: Model) -> list[tuple[FuncInfo, ast.Call]]:
+    """`<notification>.data.decode(<codec>)` without errors= : raises UnicodeDecodeError for octets that are not text."""
+    cache = model.__dict__.setdefault('_strict_data_decoders', None)
+    if cache is not None:
+        return cache
+    out = []
+    for fi in model.funcs.values():
+        for c in walk_no_nested(fi.node):
+            if isinstance(c, ast.Call) and isinstance(c.func, ast.Attribute) and c.func.attr == 'decode' and isinstance(c.func.value, ast.Attribute) and c.func.value.attr in ('data', 'raw_data'):
+                if len(c.args) >= 2 or any(k.arg == 'errors' for k in c.keywords):
+                    continue
+                if any(model.is_subclass(k, 'exabgp.bgp.message.notification.Notification') for k in model.type_classes(fi.module, c.func.value.value)):
+                    out.append((fi, c))
+    model.__dict__['_strict_data_decoders'] = out
+    return out
+
+
+def _r7_bytes_data(model: Model, run: Run, fi: FuncInfo, call: ast.Call, t: ast.AST) -> None:
+    """The Data field given as octets: the sender logs it with a strict .decode(), so the octets must be text (< 0x80)."""
+    inst = '%s: Notify data %s' % (short(fi.qualname), norm(t)[:50])
+    strict = _strict_data_decoders(model)
+    if not strict:
+        run.ok(inst, 'nothing decodes the Data field strictly')
+        return
+    folder = Folder(model)
+    why = None
+    b = amatch("pack('!H', E_a + E_b)", t)
+    if b is not None:
+        ea, eb = (ast.parse(str(b[x]), mode='eval').body for x in ('E_a', 'E_b'))
+        ka, kb = folder.fold(ea, fi.module, fi.cls), folder.fold(eb, fi.module, fi.cls)
+        k, nexpr = (ka, eb) if isinstance(ka, int) else ((kb, ea) if isinstance(kb, int) else (None, None))
+        if k is not None:
+            nname = norm(nexpr)
+            loc = Loc(model, fi)
+            for g, pol in flat_guards(fi.node, call):
+                if not (isinstance(g, ast.Compare) and len(g.ops) == 1):
+                    continue
+                left = loc.expand(g.left)
+                if left != nname and left != loc.expand(nexpr):
+                    continue
+                m = folder.fold(g.comparators[0], fi.module, fi.cls)
+                if not isinstance(m, int):
+                    continue
+                op = g.ops[0]
+                top = None
+                if isinstance(op, ast.Lt) and pol:
+                    top = m - 1
+                elif isinstance(op, ast.LtE) and pol:
+                    top = m
+                elif isinstance(op, ast.GtE) and not pol:
+                    top = m - 1
+                elif isinstance(op, ast.Gt) and not pol:
+                    top = m
+                if top is not None and 0 <= k + top < 0x80:
+                    why = 'two octets of a length that is at most %d: both below 0x80' % (k + top)
+    if why is None and fi.qualname in R7_BYTES_TRIAGED:
+        why = 'triaged: ' + R7_BYTES_TRIAGED[fi.qualname]
+    if why is not None:
+        run.ok(inst, why)
+    else:
+        sf, sc = strict[0]
+        run.violation(
+            fi.qualname,
+            'octets the peer chose in the Notify data: %s' % norm(t)[:70],
+            fi.loc(call),
+            'the Data field is handed over as raw octets whose value is not bounded below 0x80, and %s logs what it sent with '
+            '`%s` (strict): an octet >= 0x80 raises UnicodeDecodeError out of the except-Notify arm of Peer._run right after the '
+            'NOTIFICATION was written, the session is never reset and the reactor drops the peer' % (short(sf.qualname), norm(sc)[:60]),
+        )
+
+
 def _r7_notify_text(model: Model, run: Run) -> None:
     from ..strsafe import Safe, Taint, interpolations
     from .C13 import CLOSED
@@ -903,6 +991,9 @@ def _r7_notify_text(model: Model, run: Run) -> None:
             if isinstance(t, ast.Constant):
                 continue
             n += 1
+            if model.type_of(fi.module, t).split('[')[0] in ('builtins.bytes', 'builtins.bytearray', 'builtins.memoryview'):
+                _r7_bytes_data(model, run, fi, c, t)
+                continue
             sl = sl or Slicer(model, fi)
             parts = [v for _, v in interpolations(t)] or [t]
             why = None
